@@ -74,6 +74,7 @@ structure InvT (s : State) : Prop where
   t_z : s.zeroed = true → s.count = 0
   t_nz : s.nzero ≤ 1
   t_cb : ∀ t f rest, (s.thr t).pc = .cbSub → (s.thr t).prog = .fulfil f :: rest → f ∈ s.toks ∧ (s.fut f).word = .result
+  t_tok : ∀ f, (s.fut f).word = .call ∨ (s.fut f).word = .drop → f ∈ s.toks
   t_cb_uniq : ∀ t t' f r r', (s.thr t).pc = .cbSub → (s.thr t).prog = .fulfil f :: r →
     (s.thr t').pc = .cbSub → (s.thr t').prog = .fulfil f :: r' → t = t'
   t_xh : ∀ t, (s.thr t).pc = .xchgHead → s.head ≠ none
